@@ -31,6 +31,7 @@ ASSUMPTIONS = [
     "reduced-precision communication is judged by replica bit-equality plus |shard - resynchronised twin| <= 4*u_comm*(|update| resp. |W|) elementwise",
 ]
 TIMEOUT = {"quick": 1800, "thorough": 7200}
+CONFIRM_BY_RERUN = True  # ranks are threads here: an alarm must reproduce in a fresh process (vf/main.py)
 ANCHORS = {
     "distributed_shampoo/utils/shampoo_fsdp_distributor.py": ["FSDPDistributor._merge_and_block_parameters", "FSDPDistributor._merge_and_block_gradients", "FSDPDistributor.update_params"],
     "distributed_shampoo/utils/shampoo_hsdp_distributor.py": ["HSDPDistributor.__init__", "HSDPDistributor._merge_and_block_parameters", "HSDPDistributor._merge_and_block_gradients", "HSDPDistributor.update_params", "HSDPDistributor.merge_and_block_gradients", "HSDPDistributor._allocate_zeros_distributed_tensor"],
